@@ -57,7 +57,7 @@ pub fn run_one(spec: &PropSpec, case: &Case) -> Result<SeqOutcome, String> {
     r.map_err(|p| format!("harness panic: {}", crate::world::classify_panic(p).text()))
 }
 
-pub fn run_prop(spec: &PropSpec, cases: u32, seed: u64, replay_dir: &str) -> Summary {
+pub fn run_prop(spec: &PropSpec, cases: u32, seed: u64, replay_dir: &str, known: &[String]) -> Summary {
     let t0 = std::time::Instant::now();
     let mut sum = Summary { property: spec.id.into(), engine: "seq".into(), seed, ..Default::default() };
     let mut seed_bytes = [0u8; 32];
@@ -89,6 +89,8 @@ pub fn run_prop(spec: &PropSpec, cases: u32, seed: u64, replay_dir: &str) -> Sum
         harness_error: Option<String>,
         ncases: u64,
         nsteps: u64,
+        excluded_known: u64,
+        known_counts: BTreeMap<String, u64>,
     }
     let st = std::cell::RefCell::new(St::default());
 
@@ -96,7 +98,7 @@ pub fn run_prop(spec: &PropSpec, cases: u32, seed: u64, replay_dir: &str) -> Sum
         let case = gen_case(&tape, &spec.profile);
         let mut st = st.borrow_mut();
         let st = &mut *st;
-        let out = match run_one(spec, &case) {
+        let mut out = match run_one(spec, &case) {
             Ok(o) => o,
             Err(e) => {
                 if st.harness_error.is_none() {
@@ -105,6 +107,25 @@ pub fn run_prop(spec: &PropSpec, cases: u32, seed: u64, replay_dir: &str) -> Sum
                 return Err(TestCaseError::fail(format!("HARNESS: {e}")));
             }
         };
+        // listed findings: counted, excluded, the search continues behind them
+        if !known.is_empty() {
+            let before = out.violations.len();
+            let mut hit = vec![];
+            out.violations.retain(|v| {
+                if known.iter().any(|k| k == &v.rule) {
+                    hit.push(v.rule.clone());
+                    false
+                } else {
+                    true
+                }
+            });
+            if st.failed_rule.is_none() && before != out.violations.len() {
+                st.excluded_known += 1;
+                for h in hit {
+                    *st.known_counts.entry(h).or_default() += 1;
+                }
+            }
+        }
         if let Some(rule) = &st.failed_rule {
             // shrinking: keep only failures of the same rule
             if out.violations.iter().any(|v| &v.rule == rule) {
@@ -137,7 +158,11 @@ pub fn run_prop(spec: &PropSpec, cases: u32, seed: u64, replay_dir: &str) -> Sum
         Ok(())
     });
 
-    let St { nontrivial, distinct, labels, mut samples, harness_error, ncases, nsteps, .. } = st.into_inner();
+    let St { nontrivial, distinct, labels, mut samples, harness_error, ncases, nsteps, excluded_known, known_counts, .. } = st.into_inner();
+    sum.extra.insert("excluded_known".into(), excluded_known);
+    for (k, v) in known_counts {
+        sum.extra.insert(format!("known:{k}"), v);
+    }
     sum.cases = ncases;
     sum.steps = nsteps;
     sum.distinct_cases = distinct.len() as u64;
@@ -153,7 +178,7 @@ pub fn run_prop(spec: &PropSpec, cases: u32, seed: u64, replay_dir: &str) -> Sum
 
     if let Err(TestError::Fail(_, tape)) = result {
         let case = gen_case(&tape, &spec.profile);
-        let rule = run_one(spec, &case).ok().and_then(|o| o.violations.first().map(|v| v.rule.clone()));
+        let rule = run_one(spec, &case).ok().and_then(|o| o.violations.iter().find(|v| !known.contains(&v.rule)).map(|v| v.rule.clone()));
         let case = match &rule {
             Some(rule) => minimize_case(&case, &|c: &Case| {
                 run_one(spec, c).map(|o| o.violations.iter().any(|v| &v.rule == rule)).unwrap_or(false)
@@ -161,7 +186,8 @@ pub fn run_prop(spec: &PropSpec, cases: u32, seed: u64, replay_dir: &str) -> Sum
             None => case,
         };
         match run_one(spec, &case) {
-            Ok(out) => {
+            Ok(mut out) => {
+                out.violations.retain(|v| !known.contains(&v.rule));
                 sum.violations = out.violations.clone();
                 let rp = Replay {
                     property: spec.id.into(),
